@@ -45,9 +45,16 @@ def r1_changed_flag(rep, src):
         return False
 
     def callees(f):
+        # the calls the method MAKES: what stands inside a lambda or a nested function is handed out (a removal handler bound to a
+        # value reference), not run by the method -- it is interpreted with the references under C11.R5
         out = set()
-        for c in calls_in(f.node):
-            if isinstance(c.func, ast.Attribute) and norm(c.func.value) == 'self' and c.func.attr in meths:
+        todo = list(ast.iter_child_nodes(f.node))
+        while todo:
+            c = todo.pop()
+            if isinstance(c, (ast.Lambda, ast.FunctionDef, ast.AsyncFunctionDef)):
+                continue
+            todo.extend(ast.iter_child_nodes(c))
+            if isinstance(c, ast.Call) and isinstance(c.func, ast.Attribute) and norm(c.func.value) == 'self' and c.func.attr in meths:
                 out.add(c.func.attr)
         return out
     marks = {k for k, f in meths.items() if direct_marks(f)}
@@ -216,7 +223,7 @@ def r5_edits(rep, src, tier='quick'):
         layout = lay.replace(' ', '')
         nvals = layout.count('V')
         # remove(value) and removal through a reference
-        for how in ('remove', 'reference.remove'):
+        for how in ('remove', 'reference.remove', 'reference.remove while iterating'):
             for i in range(nvals):
                 heap, view, lst, nodes, vals = build_view(src, layout, space_sep)
                 it = H.Interp(heap)
@@ -227,14 +234,28 @@ def r5_edits(rep, src, tier='quick'):
                     if how == 'remove':
                         fn = heap.module.method(CLS, 'remove')
                         it.call(H.Closure(fn.node, {}, view, fn.cls), [H.Key(target, target)])
-                    else:
+                    elif how == 'reference.remove':
                         fn = heap.module.method(CLS, 'iter_value_references')
                         refs = it.seq(it.call(H.Closure(fn.node, {}, view, fn.cls), []))
                         r = refs[i]
                         rf = heap.module.method('ValueReference', 'remove')
                         it.call(H.Closure(rf.node, {}, r, rf.cls), [])
+                    else:
+                        # the documented idiom: `for ref in view.iter_value_references(): ... ref.remove()` -- the reference is used
+                        # while the iterator stands at it, and the walk goes on to the end
+                        fn = heap.module.method(CLS, 'iter_value_references')
+                        rf = heap.module.method('ValueReference', 'remove')
+                        seen_ = 0
+                        for j_, r in enumerate(it.walk(it.call(H.Closure(fn.node, {}, view, fn.cls), []))):
+                            seen_ += 1
+                            if j_ == i:
+                                it.call(H.Closure(rf.node, {}, r, rf.cls), [])
+                        if seen_ != nvals:
+                            rep.fail('C11.R5', m_site + '.iter_value_references', what, 'the walk hands out %d references for %d values when the %s one is removed on the way' % (
+                                seen_, nvals, ('first', 'second', 'third', 'fourth', 'fifth')[min(i, 4)]))
+                            continue
                 except H.Raised as x:
-                    rep.fail('C11.R5', m_site + '.' + how.split('.')[-1], what, 'raises %s (line %d)' % (x.exc, x.lineno))
+                    rep.fail('C11.R5', m_site + '.' + how.split(' ')[0].split('.')[-1], what, 'raises %s (line %d)' % (x.exc, x.lineno))
                     continue
                 got, kinds, problems = read_values(heap, lst)
                 want = [v for v in vals if v != target]
